@@ -231,3 +231,21 @@ Definition format_register (c : ctx_table) (rf : regfile) (n : name) : outcome n
 (* the value a rendering denotes (inverse of hex_fixed on digit strings) *)
 Definition hex_digit_val (b : Z) : Z := if b <? 58 then b - 48 else b - 87.
 Definition hex_val (s : name) : Z := fold_left (fun a b => a * 16 + hex_digit_val b) s 0.
+
+(* MinidumpContext::read: which context type is chosen.
+   `match md::ProcessorArchitecture::from_u16(system_info.raw.processor_architecture)`: the first arm that matches the
+   architecture number (no arm: `_ => Err(UnknownCpuContext)`, also for numbers from_u16 does not know); the arm reads its
+   CONTEXT_* type from the bytes (`gread_with`: a buffer shorter than the struct is a ReadFailure), computes
+   `ContextFlagsCpu::from_flags(ctx.context_flags [as u32])` = from_bits_truncate(flags & CONTEXT_CPU_MASK) and compares it
+   with the arm's constant: equal -> the context wrapped in the arm's variant (validity All), else ReadFailure.
+   [flags_of a] is the value of the context_flags field the arm's type finds in the bytes. *)
+Inductive read_result := RVariant (v : name) | RReadFailure | RUnknownCpu.
+Definition find_read_arm (arms : list read_arm) (arch : Z) : option read_arm :=
+  find (fun a => existsb (Z.eqb arch) (ra_archs a)) arms.
+Definition cpu_from_flags (mask allbits flags : Z) : Z := Z.land (Z.land (flags mod 2 ^ 32) mask) allbits.
+Definition read_dispatch (arms : list read_arm) (mask allbits arch len : Z) (flags_of : read_arm -> Z) : read_result :=
+  match find_read_arm arms arch with
+  | None => RUnknownCpu
+  | Some a => if len <? ra_size a then RReadFailure
+              else if cpu_from_flags mask allbits (flags_of a) =? ra_flag a then RVariant (ra_variant a) else RReadFailure
+  end.
